@@ -1,6 +1,8 @@
 //! C16 — async readers and writers behave exactly like their synchronous counterparts.
 
 mod bgzf_level;
+mod cut;
+mod format_level;
 
 use bgzf_level::{ROp::*, WOp, make_case, make_wscript};
 use vmc::{Config, oracle::bgzf::Payload};
@@ -53,5 +55,22 @@ fn main() {
         ctx.harness(Config::new("bgzf_writer_uniform", ctx.by_tier(1, 2)), |ch| {
             bgzf_level::writer_body(ch, &scripts, &workers, &uniform, CostModel::Preempt)
         });
+
+        // ---- format level ----
+        format_level_harnesses(ctx);
     });
+}
+
+fn format_level_harnesses(ctx: &mut vmc::Ctx) {
+    use vnd::Format;
+    let docs = vnd::corpus(ctx.thorough());
+    let all: Vec<format_level::RCase> = docs.iter().filter(|d| !d.big).filter_map(|d| format_level::make_rcase(&docs, d)).collect();
+    eprintln!("[C16] format level: {} reader cases", all.len());
+    let workers = [1usize, 2];
+    let uniform = [PollMode::OneByte, PollMode::PendingEvery, PollMode::Irregular];
+    ctx.harness(Config::new("fmt_reader_uniform", 0), |ch| format_level::reader_body(ch, &all, &workers, &uniform));
+    let choose = [PollMode::Choose];
+    let b: u32 = std::env::var("C16_B").ok().and_then(|s| s.parse().ok()).unwrap_or(ctx.by_tier(1, 2));
+    ctx.harness(Config::new("fmt_reader", b), |ch| format_level::reader_body(ch, &all, &workers, &choose));
+    let _ = Format::Bam;
 }
